@@ -180,6 +180,25 @@ def options_db():
     return db
 
 
+def optget_db(flip):
+    """argument parsers obtained from get_standard_argument_parser() (the library's process-wide
+    parser cache) with keyword options; the two variants ask for the same argument letters and
+    option names with opposite values"""
+    from pylatexenc.macrospec import LatexContextDb, MacroSpec, EnvironmentSpec
+    from pylatexenc.latexnodes import LatexArgumentSpec as A
+    from pylatexenc.latexnodes.parsers import get_standard_argument_parser as g
+    db = LatexContextDb()
+    db.add_context_category('optget', macros=[
+        MacroSpec('ogfull', [A(g('{', return_full_node_list=not flip))]),
+        MacroSpec('ogsp', [A('{'), A(g('[', allow_pre_space=bool(flip)))]),
+        MacroSpec('ogboth', [A(g('{', return_full_node_list=bool(flip), allow_pre_space=not flip))]),
+        MacroSpec('ogplain', [A(g('{')), A(g('['))]),
+    ])
+    db.set_unknown_macro_spec(MacroSpec(''))
+    db.set_unknown_environment_spec(EnvironmentSpec(''))
+    return db
+
+
 OPTIONS_TOKENS = ['\\ofull', '\\onosp', '\\oonosp', '\\omark', '\\omarkb', '\\omarkg', '\\osn',
                   '\\orr', '\\odd', '\\ott', '\\oee', '\\oom', '\\olegacy', '\\olegns',
                   '\\osns', '\\otns', '\\odns', '\\;', '\\:',
@@ -218,6 +237,8 @@ def build(recipe):
         return extdelta_db()
     if recipe == 'options':
         return options_db()
+    if recipe in ('optget', 'optget2'):
+        return optget_db(recipe == 'optget2')
     if recipe == 'extdelta2':
         return extdelta_db(auto_first=False)
     """recipe: 'default' | 'every' | 'every-nounknown' | 'every-strings' | 'extended'"""
